@@ -56,7 +56,14 @@ def probes_on(model, r, names, stats, report):
                 if abs(got - want) > DUST:
                     what = (f"pull check over {kind} {src}->{dst} offered {X}, a request for {y} returned {got} (expected {want})" if direction == "pull"
                             else f"push check over {kind} {src}->{dst} reported room for {X}, a push of {y} left {got} unplaced (expected {want})")
-                    report(what, (direction, kind, src, dst))
+                    sig = (direction, kind, src, dst)
+                    leak = getattr(arc.in_port, "leakage", 0) if direction == "pull" else 0
+                    if leak and frac(leak) > 0 and want < got <= want / (1 - frac(leak)) + DUST:
+                        # recorded known finding, by mechanism: a Distribution with leakage pulled request / (1 - leakage)
+                        # from upstream and the leaked part was not (fully) taken by groundwater: it is handed to the
+                        # consumer on top of what was asked for
+                        sig = sig + ("leak-bounced",)
+                    report(what, sig)
 
 
 def run(rep, thorough, pid="C07"):
@@ -95,4 +102,6 @@ def run(rep, thorough, pid="C07"):
 
 
 def known_signature(sig, msg):
+    if len(sig) == 5 and sig[4] == "leak-bounced":
+        return "distribution-leakage-bounced-to-consumer"
     return None
